@@ -14,6 +14,7 @@ import datetime as dt
 from ..runner import Acc
 from ..lib import container as C
 from ..lib import gen, impl, vjson
+from . import c16
 
 LEVEL = "model_checking"
 
@@ -90,6 +91,11 @@ def compare(a, b, allow_conv, path="module"):
 
 
 def build(items, as_dict):
+    if items == "LENGTH":
+        # a float subclass that would be written as a quantity only if another
+        # encoder's add_quantity_cls() registration leaked
+        return impl.PVLModule([("h", c16.Length(3.5, "m")),
+                               ("g", impl.PVLGroup([("d", c16.Length(7.25, "km"))]))])
     if as_dict:
         return {k: vjson.dec(v) for k, v in items}
     return gen.module(items)
@@ -119,6 +125,11 @@ def check_case(case):
         return out
     if r1[0] == "raised":
         return out      # not this property's business (C01/C12 judge refusals' types)
+    # anything may happen elsewhere in the process between two dumps of the same
+    # object: other encoder/parser/decoder instances are created, configured
+    # (add_quantity_cls) and used
+    if case.get("interfere"):
+        c16.interfere()
     r2 = call(enc, m)
     s2 = snapshot(m)
     d = compare(s1, s2, allow)
@@ -139,10 +150,15 @@ def check_case(case):
 
 def shard(spec):
     acc = Acc()
+    hermetic = isinstance(spec, tuple) and spec[0] == "hermetic"
+    if hermetic:
+        spec = [spec[1]]
     for items, as_dict in spec:
         acc.states += 1
         for encname, cfg in CONFIGS:
             case = {"items": items, "enc": encname, "cfg": cfg, "dict": as_dict}
+            if hermetic:
+                case["interfere"] = True
             vs = check_case(case)
             acc.n += 1
             acc.transitions += 2
@@ -170,11 +186,21 @@ def run(ctx):
             mods.append((f, False))
     for s in specials():
         mods.append((s, False))
+    mods.append(("LENGTH", False))
     for f in gen.forests(2, ["a"], ["g"], [1]):
         mods.append((f, True))           # plain dict input (unique keys only)
     mods = [m for m in mods if not (m[1] and len({k for k, _ in m[0]}) != len(m[0]))]
+    if ctx.quick:
+        mods = [m for m in mods]
     specs = [mods[i::64] for i in range(64) if mods[i::64]]
     acc = ctx.pmap(shard, specs)
+    # hermetic cases: one fresh process each, with unrelated activity on other
+    # instances (construction, add_quantity_cls, dumps, loads) between the two dumps
+    import multiprocessing
+    herm = [("hermetic", (s, False)) for s in specials()] + [("hermetic", ("LENGTH", False))]
+    with multiprocessing.get_context("fork").Pool(16, maxtasksperchild=1) as pool:
+        for r in pool.imap_unordered(shard, herm):
+            acc.merge(r)
     cov = {
         "evaluations": acc.n, "distinct_nontrivial": acc.nontrivial,
         "states": acc.states, "transitions": acc.transitions,
@@ -196,11 +222,17 @@ def run(ctx):
 
 
 def replay(case):
+    if case.get("interfere"):
+        import multiprocessing
+        with multiprocessing.get_context("fork").Pool(1, maxtasksperchild=1) as pool:
+            return pool.apply(check_case, (case,))
     return check_case(case)
 
 
 def candidates(case):
     items = case["items"]
+    if not isinstance(items, list):
+        return
 
     def drop(its):
         for i in range(len(its)):
